@@ -1087,7 +1087,19 @@ class ComplexModelBase(ModelBase):
         fti = cls.get_flat_type_info(cls)
 
         retval = TypeInfo()
-        tags = set()
+
+        def _enclosing_classes(keys):
+            # classes of the objects that enclose the member at path ``keys``.
+            # only these can close a reference cycle: a class that merely
+            # appears elsewhere in the tree must still be expanded.
+            c = cls
+            ecs = [c]
+            for k in keys[:-1]:
+                c = c.get_flat_type_info(c)[k]
+                if issubclass(c, Array) and c.Attributes.max_occurs == 1:
+                    c, = c._type_info.values()
+                ecs.append(c)
+            return ecs
 
         queue = deque()
         if prot is None:
@@ -1117,8 +1129,6 @@ class ComplexModelBase(ModelBase):
                     cls,
                 ))
 
-        tags.add(cls)
-
         while len(queue) > 0:
             keys, v, prefix, is_array, parent = queue.popleft()
             k = keys[-1]
@@ -1135,8 +1145,7 @@ class ComplexModelBase(ModelBase):
                     can_be_empty=True,
                 )
 
-                if not (v in tags):
-                    tags.add(v)
+                if not (v in _enclosing_classes(keys)):
                     if prot is None:
                         for k2, v2 in v.get_flat_type_info(v).items():
                             sub_name = k2
